@@ -291,6 +291,9 @@ impl Compiler {
         let mut ast = RegexAst::Regex(rx);
         if let Some(d) = num.multiple_of.as_ref() {
             ast = RegexAst::And(vec![ast, signed_multiple_of_ast(d.coef, d.exp)]);
+            // check_number_bounds() works in floating point and can miss that the range
+            // holds no multiple (e.g. (0.3, 0.35] with multipleOf 0.1): ask the regex engine
+            ensure_non_empty_regex(&ast)?;
         }
         Ok(ast)
     }
@@ -312,6 +315,9 @@ impl Compiler {
         let mut ast = RegexAst::Regex(rx);
         if let Some(d) = num.multiple_of.as_ref() {
             ast = RegexAst::And(vec![ast, signed_multiple_of_ast(d.coef, d.exp)]);
+            // check_number_bounds() works in floating point and can miss that the range
+            // holds no multiple (e.g. (0.3, 0.35] with multipleOf 0.1): ask the regex engine
+            ensure_non_empty_regex(&ast)?;
         }
         Ok(ast)
     }
@@ -1021,6 +1027,23 @@ fn signed_multiple_of_ast(coef: u32, exp: u32) -> RegexAst {
         RegexAst::Regex("-?".to_string()),
         RegexAst::MultipleOf(coef, exp),
     ])
+}
+
+/// Reject a regex whose language is empty as an unsatisfiable schema.
+/// If emptiness cannot be decided within the fuel limit the regex is let through.
+fn ensure_non_empty_regex(ast: &RegexAst) -> Result<()> {
+    let mut builder = derivre::RegexBuilder::new();
+    let expr = builder.mk(ast)?;
+    if let Ok(mut regex) = builder.to_regex_limited(expr, 10_000) {
+        if regex.always_empty() {
+            let mut rx_repr = String::new();
+            ast.write_to_str(&mut rx_repr, 1_000, None);
+            return Err(anyhow!(UnsatisfiableSchemaError {
+                message: format!("Regex is empty: {rx_repr}")
+            }));
+        }
+    }
+    Ok(())
 }
 
 fn always_non_empty(ast: &RegexAst) -> bool {
